@@ -14,6 +14,7 @@
 //   on <X> rmall <a>                    removeAll(PopData of ALT block a)
 //   on <X> cleanup | clear | mp         mp = dump of all views (connected / in flight / relations)
 //   on <X> bits                         tree verdict bits used by the pool model (see props/_mempool.py)
+//   on <X> genv                         selection trace of the last gen (props/_gencorr.py), see genTraced
 //   on <X> relv [<a>]                   relations-model view (props/_relcorr.py): signal trace of the previous line,
 //                                       cleanUp predicates over the registry, all seven containers and the relations
 // Oracle failures are printed as "!<id> <text>".
@@ -714,7 +715,7 @@ struct MpSession : public vw::Session {
       // on a loaded tree finalization deallocates ALT blocks and leaves their endorsement pointers in the VBK
       // blocks of proof (observed: heap-use-after-free when they are read), so the endorsement lists are not read there
       auto before = isLoaded ? safeObserve(I) : vw::observe(*reg, I.tree, vw::FULL);
-      PopData P = mp.generatePopData();
+      PopData P = genTraced(I);
       auto after = isLoaded ? safeObserve(I) : vw::observe(*reg, I.tree, vw::FULL);
       // the validity LEVEL (low three status bits) is a memo of what has been validated so far: applying the
       // temporary block may raise it (BLOCK_CAN_BE_APPLIED of a VBK fork block that was applied while the candidate
@@ -812,6 +813,7 @@ struct MpSession : public vw::Session {
     if (c == "mpv") return dumpViews(I);
     if (c == "info") return info(t[1]);
     if (c == "relv") return relView(I, t.size() > 1 ? t[1] : std::string());
+    if (c == "genv") return lastGenTrace.empty() ? std::string("SKIP") : lastGenTrace;
     return "";
   }
 
@@ -882,6 +884,56 @@ struct MpSession : public vw::Session {
     bool p = mp->mempool_tree_.vbk().getBlockIndex(carried.getHash()) != nullptr;
     reltrace[mp].push_back(idname(*reg, id) + ":" + (f ? "1" : "0") + (c ? "1" : "0") + (p ? "1" : "0"));
   }
+  // ------------------------------------------------------------ selection trace (props/_gencorr.py)
+  // generatePopData through its callback overload (the plain overload calls it with empty callbacks): the candidates
+  // in the order filterInvalidPayloads visits them with the verdict each got (k kept, f does-not-fit, d stateless
+  // duplicate, x rejected by mutator.add), their estimateSize, the VBK block an ATV/VTB belongs to, the limits and the
+  // result. "on <X> genv" returns the trace of the last gen; with VERIF_GEN_TRACE=<file> every gen appends
+  // "<history number of this process> <lines of the history so far> <instance> <trace>" to <file>.<pid>.
+  std::string lastGenTrace;
+  long genHistory = -1, genLine = 0;
+  static std::string genCode(const ValidationState& st) {
+    if (st.IsValid()) return "k";
+    const std::string p = st.GetPath();
+    if (p.find("does-not-fit") != std::string::npos) return "f";
+    if (p.find("stateless-duplicate") != std::string::npos) return "d";
+    return "x";
+  }
+  PopData genTraced(Instance& I) {
+    auto& mp = *I.mempool;
+    std::string who = "?";
+    for (auto& kv : inst)
+      if (kv.second.get() == &I) who = kv.first;
+    std::vector<std::string> cb, cw, ca, oc, ow, oa;
+    PopData P = mp.generatePopData(
+        [&](const ATV& a, const ValidationState& st) {
+          ca.push_back(idname(*reg, a.getId()) + ":" + std::to_string(a.estimateSize()) + ":" + genCode(st) + ":" +
+                       idname(*reg, a.blockOfProof.getId()));
+        },
+        [&](const VTB& w, const ValidationState& st) {
+          cw.push_back(idname(*reg, w.getId()) + ":" + std::to_string(w.estimateSize()) + ":" + genCode(st) + ":" +
+                       idname(*reg, w.containingBlock.getId()));
+        },
+        [&](const VbkBlock& b, const ValidationState& st) {
+          cb.push_back(idname(*reg, b.getId()) + ":" + std::to_string(b.estimateSize()) + ":" + genCode(st) + ":" +
+                       std::to_string(b.getHeight()));
+        });
+    for (auto& x : P.context) oc.push_back(idname(*reg, x.getId()));
+    for (auto& x : P.vtbs) ow.push_back(idname(*reg, x.getId()));
+    for (auto& x : P.atvs) oa.push_back(idname(*reg, x.getId()));
+    const auto& al = I.p.alt;
+    lastGenTrace = "lim=" + std::to_string(al.mMaxVbkBlocksInAltBlock) + "/" + std::to_string(al.mMaxVTBsInAltBlock) + "/" +
+                   std::to_string(al.mMaxATVsInAltBlock) + "/" + std::to_string(al.mMaxPopDataSize) +
+                   " cb=" + join(cb, false) + " cw=" + join(cw, false) + " ca=" + join(ca, false) +
+                   " oc=" + join(oc, false) + " ow=" + join(ow, false) + " oa=" + join(oa, false) +
+                   " est=" + std::to_string(P.estimateSize());
+    if (const char* f = std::getenv("VERIF_GEN_TRACE")) {
+      std::ofstream o(std::string(f) + "." + std::to_string((long)getpid()), std::ios::app);
+      o << genHistory << " " << genLine << " " << who << " " << lastGenTrace << "\n";
+    }
+    return P;
+  }
+
   void relHook(Instance& I) {
     MemPool* mp = I.mempool.get();
     if (mp == nullptr || mp->on_atv_accepted.size() != 0) return;
@@ -942,6 +994,8 @@ struct MpSession : public vw::Session {
     fails.clear();
     notes.clear();
     afterPass = t.size() > 2 && t[0] == "on" && (t[2] == "gen" || t[2] == "rmall");
+    if (t[0] == "begin") { genHistory++; genLine = 0; }
+    genLine++;
     for (auto& s : submitted) s.clear();
     if (!(t.size() > 2 && t[0] == "on" && t[2] == "relv")) reltrace.clear();
     if (reg)
